@@ -18,6 +18,7 @@ func init() {
 	zzsv.Register("ZZ_C16_In", ZZ_C16_In)
 	zzsv.Register("ZZ_C16_Len", ZZ_C16_Len)
 	zzsv.Register("ZZ_C16_Iterate", ZZ_C16_Iterate)
+	zzsv.Register("ZZ_C16_HostStrings", ZZ_C16_HostStrings)
 	zzsv.Register("ZZ_C16_LiteralContainers", ZZ_C16_LiteralContainers)
 	zzsv.Register("ZZ_C16_SameContainer", ZZ_C16_SameContainer)
 }
@@ -423,3 +424,49 @@ func ZZ_C16_LiteralContainers(sv *zzsv.T) {
 // the same time (nested, through a function, one after the other): each
 // visits each entry exactly once.
 func ZZ_C16_SameContainer(sv *zzsv.T) { zzSameIterable(sv, "C16.same") }
+
+type zzC16Text struct{ S string }
+
+// ZZ_C16_HostStrings: strings that come from the host may hold any bytes,
+// not only valid UTF-8: len(s) characters, s[i] for every i below it and a
+// foreach over s agree with each other and with how the host language
+// itself walks the string (a byte that starts no valid sequence is one
+// character, U+FFFD).
+func ZZ_C16_HostStrings(sv *zzsv.T) {
+	n := 1 + sv.Choice("nbytes", sv.Param("hoststr.maxbytes", 3, 4))
+	s := sv.String("s", n)
+	// bytes that matter for decoding: ASCII, continuation bytes, two- and
+	// three-byte lead bytes, bytes that are never valid
+	for i := 0; i < n; i++ {
+		c := s[i]
+		sv.Assume(sv.Any(c == 'a', c == 0x80, c == 0xA9, c == 0xC3, c == 0xE6, c == 0xFF, c == 0xC0))
+	}
+	var want []string
+	for _, r := range s {
+		want = append(want, string(r))
+	}
+	var seenK, seenV []object.Object
+	e := New("foreach k, v in S { t(k, v); } return len(S);")
+	sv.Note("script", e.Script)
+	e.AddFunction("t", func(args []object.Object) object.Object {
+		seenK = append(seenK, args[0])
+		seenV = append(seenV, args[1])
+		return &object.Void{}
+	})
+	sv.Assume(e.Prepare() == nil)
+	var obj interface{} = zzC16Text{S: s}
+	if sv.Choice("as_map", 2) == 1 {
+		obj = map[string]interface{}{"S": s}
+	}
+	out, err := e.Execute(obj)
+	zzDescribe(sv, "result", out, err)
+	sv.Assert("C16.hoststr.len", err == nil && zzSame(sv, out, zInt(int64(len(want)))))
+	sv.Assert("C16.hoststr.visits", len(seenK) == len(want))
+	if len(seenK) != len(want) {
+		return
+	}
+	for k := range want {
+		sv.Assert("C16.hoststr.index", zzSame(sv, seenK[k], zInt(int64(k))))
+		sv.Assert("C16.hoststr.char", zzSame(sv, seenV[k], zStr(want[k])))
+	}
+}
